@@ -177,16 +177,25 @@ async def _clean_case(rng, hids):
                 b = cc.Builder(w, rng, disk=True)
                 made = b.grow(rng.randint(2, 6))
                 b.complete_all(made, fraction=rng.choice([1.0, 0.8]))
+                b.outdate_some(made, prob=0.45)
                 b.drop_random(made)
                 edits = cc.user_edits(b, rng, made)
             async with w.db:
                 g = cc.dump_graph(w, hids)
             before = cc.snapshot_fs(".", hids)
             contents = {p: Path(p).read_text() for p, e in before.items() if e != "dir"}
-            all_, safe, commit = rng.random() < 0.5, rng.random() < 0.7, rng.random() < 0.8
+            all_, safe, commit = rng.random() < 0.5, rng.random() < 0.7, rng.random() < 0.85
             choices = ["."] + sorted({os.path.dirname(p) for p in b.ever_output if os.path.dirname(p)}) \
                 + sorted(b.ever_output)[:3] + sorted(b.statics)[:2]
-            trs = sorted(set(rng.sample(choices, k=min(len(choices), rng.choice([1, 1, 2])))))
+            r = rng.random()
+            hand_edited = sorted(q for q, e in edits.items() if e not in ("neighbour", "adopt-static"))
+            if r < 0.4:
+                trs = ["."]
+            elif r < 0.7 and hand_edited:
+                q = rng.choice(hand_edited)
+                trs = [q if rng.random() < 0.5 or not os.path.dirname(q) else os.path.dirname(q)]
+            else:
+                trs = sorted(set(rng.sample(choices, k=min(len(choices), rng.choice([1, 1, 2])))))
             crash = None
             async with w.db:
                 try:
@@ -332,6 +341,14 @@ def correspondence(ctx):
         ctx.case(("clean", repr(c["graph"]), repr(c["args"]), repr(c["paths"]), repr(c["before"])), nrem > 0 or c["crash"] is not None)
         ctx.count("clean_removed_paths", nrem)
         ctx.count("clean_crashes", int(c["crash"] is not None))
+        nodes = cc._nodes_by_path(c["graph"])
+        for q, e in c["edits"].items():
+            st = nodes.get(q, {}).get("fstate")
+            if st in (15, 17, 18) and e in ("overwrite", "to-dir", "to-dir-nonempty", "rewrite-same"):
+                ctx.count({15: "clean_edited_PLANNED_leftover", 17: "clean_edited_OUTDATED", 18: "clean_edited_VOLATILE"}[st], 1)
+                sel = any(t == "." or q == t or q.startswith(t + "/") for t in c["paths"]) and (c["args"][0] or nodes[q]["det"])
+                if st == 17 and sel and c["args"][2]:
+                    ctx.count("clean_edited_OUTDATED_selected_commit_" + ("safe" if c["args"][1] else "unsafe"), 1)
     ctx.sample({"E1b": {"args": cl[0]["args"], "paths": cl[0]["paths"], "crash": cl[0]["crash"], "edits": cl[0]["edits"]}})
     bad = common.run_cases(ctx, "clean", cc.HEADER, checks, chunk=40)
     ctx.traces_validated += len(checks) - len(bad)
